@@ -204,6 +204,31 @@ func (rt *ResultTypeExpr) useExplicitView() {
 	}
 }
 
+// explicitViewDefined returns false and the view name if a view was explicitly
+// set on the result type with View and it cannot be projected with it.
+func (rt *ResultTypeExpr) explicitViewDefined() (string, bool) {
+	view, ok := rt.AttributeExpr.Meta.Last(ViewMetaKey)
+	if !ok {
+		return "", true
+	}
+	t := rt
+	for {
+		a, ok := t.Type.(*Array)
+		if !ok {
+			break
+		}
+		e, ok := a.ElemType.Type.(*ResultTypeExpr)
+		if !ok {
+			break
+		}
+		t = e
+	}
+	if _, params, _ := mime.ParseMediaType(t.Identifier); params["view"] == view {
+		return view, true
+	}
+	return view, t.View(view) != nil
+}
+
 // ensureDefaultView builds the default view if not explicitly defined.
 func (rt *ResultTypeExpr) ensureDefaultView() {
 	if rt.View(DefaultView) == nil {
